@@ -10,6 +10,7 @@ import Fir.Model.ProtoResize
 import Fir.Model.ProtoCoeffs
 import Fir.Model.SimdU8x4
 import Fir.Model.SimdVertU8
+import Fir.Model.SimdU8x3
 namespace Fir
 
 /-- C02 tolerance between two back-ends: integers identical, f32 a few ulps of a re-associated f64 sum -/
@@ -106,7 +107,24 @@ def handleKernel (fs : List (String × String)) : String :=
                 return some s!"lane model of the {ext} vertical u8 kernel: row {y} component {i}: model={outRow.getD i 0} got={got[y * rowLen + i]!}"
           return none
         else none
-      let lane := match lane with | some a => some a | none => laneV
+      -- U8x3 on SSE4.1, horizontal pass, leftover rows: the one-row kernel with its width-dependent loop exits
+      let lane3 : Option String :=
+        if p.kind == .u8 ∧ p.n == 3 ∧ ext == "sse4" ∧ pass == "h" ∧ got.size == dw * dh * 3 then Id.run do
+          let q := normalize16 c
+          for y in [dh - dh % 4 : dh] do
+            let row : List Int := (List.range (sw * 3)).map fun i => src[(offset + y) * sw * 3 + i]!
+            for x in [0:dw] do
+              let (start, ks) := q.chunks.getD x (0, #[])
+              let px := SimdU8x3.pixel q.precision sw row start ks.toList
+              for ch in [0:3] do
+                if px.getD ch 0 ≠ got[(y * dw + x) * 3 + ch]! then
+                  return some s!"lane model of the SSE4.1 U8x3 one-row kernel: pixel ({x},{y}) channel {ch}: model={px.getD ch 0} got={got[(y * dw + x) * 3 + ch]!}"
+          return none
+        else none
+      let lane := match lane, laneV, lane3 with
+        | some a, _, _ => some a
+        | none, some b, _ => some b
+        | none, none, c => c
       let m := match m, lane with
         | some a, _ => some a
         | none, some b => some b
